@@ -38,7 +38,7 @@ pub struct SharedLinkAcceptorFields {
 pub mod acc_session {
     use super::*;
     #[verifier::external_body]
-    pub fn allocate_incoming_link(control: &SessCtlTx, link_name: String, link_relay: LinkRelay, input_handle: InputHandle, stop: &StopArc) -> (r: Result<OutputHandle, AllocLinkError>)
+    pub fn allocate_incoming_link(control: &SessCtlTx, link_name: String, link_relay: LinkRelay<()>, input_handle: InputHandle, stop: &StopArc) -> (r: Result<OutputHandle, AllocLinkError>)
         ensures r is Ok ==> registered(r->Ok_0) == link_relay,
     { unimplemented!() }
 }
